@@ -35,6 +35,7 @@ package obipcr
 import (
 	"encoding/json"
 	"fmt"
+	"os"
 	"runtime"
 	"sort"
 	"strconv"
@@ -309,6 +310,40 @@ func c11cCollect(c c11cCfg, res obiseq.BioSequenceSlice, o *c11cOut) {
 	}
 }
 
+// c11cGoID: number of the calling goroutine (first line of its stack: "goroutine 17 [running]:").
+func c11cGoID() string {
+	b := make([]byte, 64)
+	f := strings.Fields(string(b[:runtime.Stack(b, false)]))
+	if len(f) > 1 {
+		return f[1]
+	}
+	return "?"
+}
+
+// c11cGuarded: the goroutines in which the harness calls the implementation under a recover of its own.
+var c11cGuarded sync.Map
+
+// c11cNet: a log.Panic* raised in a goroutine the implementation started (the workers of CLIPCR) cannot be caught by
+// any guard of the harness and ends the process: the tree under test does that, not the harness. It is recorded
+// as a violation, the shard writes what it has found and stops there. (log.Fatal* is handled by the ExitFunc:
+// it ends the goroutine that calls it and is reported through c11cFatal.)
+type c11cNet struct{ r *verifkit.Result }
+
+func (n c11cNet) Levels() []log.Level { return []log.Level{log.PanicLevel} }
+
+func (n c11cNet) Fire(e *log.Entry) error {
+	if _, ok := c11cGuarded.Load(c11cGoID()); ok {
+		return nil
+	}
+	stack := make([]byte, 3000)
+	stack = stack[:runtime.Stack(stack, false)]
+	n.r.Violate("CLIPCR/log.Panic-in-a-goroutine-of-the-pipeline", fmt.Sprintf("log.Panic %q in a goroutine started by the implementation; the shard stops here\n%s", e.Message, stack), nil)
+	n.r.Cap("a log.Panic in a goroutine of the implementation ended a shard: its remaining cases were not run")
+	n.r.Write()
+	os.Exit(0)
+	return nil
+}
+
 // c11cRun parses the command line with the command's own option set and pushes the templates through
 // CLIPCR. Everything runs in a goroutine of its own: a log.Fatal anywhere in the pipeline ends the
 // calling goroutine (ExitFunc -> Goexit) and is reported through c11cFatal.
@@ -319,6 +354,16 @@ func c11cRun(c c11cCfg, tpls []string, first int) c11cOut {
 	}
 	go func() {
 		o := c11cOut{amps: map[int][]c11cAmp{}}
+		// a panic of the command path in this goroutine is an outcome (keyed .../fatal), not the end of the
+		// shard; a log.Fatal ends the goroutine through Goexit (recover() is nil then) and arrives on c11cFatal
+		id := c11cGoID()
+		c11cGuarded.Store(id, true)
+		defer c11cGuarded.Delete(id)
+		defer func() {
+			if x := recover(); x != nil {
+				done <- c11cOut{fatal: fmt.Sprintf("panic: %v", x)}
+			}
+		}()
 		opt := getoptions.New()
 		OptionSet(opt)
 		if _, err := opt.Parse(c.args()); err != nil {
@@ -378,6 +423,14 @@ func c11cRef(c c11cCfg, i int, t string) (amps []c11cAmp, fatal string) {
 	done := make(chan c11cOut, 1)
 	go func() {
 		o := c11cOut{amps: map[int][]c11cAmp{}}
+		id := c11cGoID()
+		c11cGuarded.Store(id, true)
+		defer c11cGuarded.Delete(id)
+		defer func() {
+			if x := recover(); x != nil {
+				done <- c11cOut{amps: map[int][]c11cAmp{}, bad: fmt.Sprintf("panic: %v", x)}
+			}
+		}()
 		c11cCollect(c, obiapat.PCRSim(c11cTemplate(i, t), c.refopts()...), &o)
 		done <- o
 	}()
@@ -418,7 +471,10 @@ func (x *c11cRunner) compare(cs c11cCase, c c11cCfg, idx int, t string, got []c1
 	ref, rfatal := c11cRef(c, idx, t)
 	r.Trans(1)
 	if rfatal != "" {
-		r.Count("reference_failed", 1) // PCRSim itself fails: reported by the obiapat part
+		// the control run (PCRSim on the whole template alone) fails: a verdict on the tree (the obiapat part
+		// reports it in detail); the comparison that depends on it is skipped
+		r.Count("reference_failed", 1)
+		r.Violate("CLIPCR/control-run/PCRSim-fails", fmt.Sprintf("obipcr %s, template #%d %.60q (%d nt): PCRSim on the whole template alone (the reference of this part): %s", strings.Join(c.args(), " "), idx, t, len(t), rfatal), cs)
 		return
 	}
 	mode := "plain"
@@ -517,9 +573,37 @@ func (x *c11cRunner) compare(cs c11cCase, c c11cCfg, idx int, t string, got []c1
 	}
 }
 
+// c11cBuiltWithSites: the template holds an exact instance of the forward primer followed, without
+// overlap, by an exact instance of rc(reverse primer), on one of its strands (a fact about the input the
+// harness built; whether an amplicon is defined also depends on the length bounds).
+func c11cBuiltWithSites(c c11cCfg, t string) bool {
+	fs, rs := c11cInstance(c.Fwd), c11cRC(c11cInstance(c.Rev))
+	for _, s := range []string{t, c11cRC(t)} {
+		if i := strings.Index(s, fs); i >= 0 && strings.Contains(s[i+len(fs):], rs) {
+			return true
+		}
+	}
+	return false
+}
+
 // one command line on one list of templates
 func (x *c11cRunner) command(cs c11cCase, c c11cCfg, tpls []string, first int) {
 	r := x.r
+	// vacuity counters: facts about the templates GIVEN (built with a forward site followed by the
+	// rc(reverse) site, in either orientation), not about what PCRSim or the command answers
+	for _, t := range tpls {
+		mode := "plain"
+		if c.Frag {
+			mode = "fragmented-uncut"
+			if c.cuts(t) {
+				mode = "fragmented"
+			}
+		}
+		r.Count("cli_templates_given", 1)
+		if c11cBuiltWithSites(c, t) {
+			r.Count("cli_templates_given_with_both_sites_"+mode, 1)
+		}
+	}
 	o := c11cRun(c, tpls, first)
 	r.Eval(1)
 	r.Trans(int64(len(tpls)))
@@ -628,6 +712,7 @@ func TestVerifC11CLI(t *testing.T) {
 	}
 	r := verifkit.New("C11")
 	defer r.Write()
+	log.AddHook(c11cNet{r})
 	x := &c11cRunner{r}
 	pairs := []c11cPair{{"aacgr", "ttyagc", "aacggctgaa"}, {"gwtacc", "aakgg", "gataccctt"}, {"cwtg", "ttayagtkca", "catgcactgtaa"}}
 	pairOf := func(fwd string) c11cPair {
@@ -657,10 +742,12 @@ func TestVerifC11CLI(t *testing.T) {
 	}
 
 	thorough := verifkit.Thorough()
-	r.RequireNonVacuous("cli_reference_amplicons")
-	r.RequireNonVacuous("cli_templates_with_amplicon_plain")
-	r.RequireNonVacuous("cli_templates_with_amplicon_fragmented")
-	r.RequireNonVacuous("cli_templates_with_amplicon_fragmented-uncut")
+	// guards on what the harness gives, not on what PCRSim answers (cli_reference_amplicons and
+	// cli_templates_with_amplicon_* stay as plain counters)
+	r.RequireNonVacuous("cli_templates_given")
+	r.RequireNonVacuous("cli_templates_given_with_both_sites_plain")
+	r.RequireNonVacuous("cli_templates_given_with_both_sites_fragmented")
+	r.RequireNonVacuous("cli_templates_given_with_both_sites_fragmented-uncut")
 	k := 0
 
 	// ---- short templates x the option grid
@@ -771,13 +858,14 @@ func TestVerifC11CLI(t *testing.T) {
 					continue
 				}
 				c := c11cCfg{Fwd: p.fwd, Rev: p.rev, E: e, Min: -1, Max: 3, Delta: -1, Frag: true, LongNames: true, Workers: 2, Batch: 7}
-				before := r.Counters["cli_reference_amplicons"]
+				before, given := r.Counters["cli_reference_amplicons"], r.Counters["cli_templates_given_with_both_sites_fragmented"]
 				x.long(p, c, fam, 3300, -1)
 				r.Count("cli_reference_amplicons_fitting_the_overlap", r.Counters["cli_reference_amplicons"]-before)
+				r.Count("cli_templates_given_with_an_amplicon_fitting_the_overlap", r.Counters["cli_templates_given_with_both_sites_fragmented"]-given)
 			}
 		}
 	}
-	r.RequireNonVacuous("cli_reference_amplicons_fitting_the_overlap")
+	r.RequireNonVacuous("cli_templates_given_with_an_amplicon_fitting_the_overlap")
 
 	keys := []string{}
 	for _, p := range pairs {
